@@ -14,7 +14,8 @@ for m in sorted(glob.glob(os.path.join(HERE, "seeded", "*", "meta.json"))):
     for ck, r in sorted(d.get("checks", {}).items()):
         if r["exit"] == 1 and r["violations"]:
             b = sorted({x.replace("  bucket: ", "") for x in r["buckets"]})
-            det.append(f"{ck} {d.get('tier','quick')} ({'; '.join(b)[:90]})")
+            nm = ck if ":" in ck else f"{ck} {d.get('tier','quick')}"
+            det.append(f"{nm.replace(':', ' ')}: caught ({'; '.join(b)[:90]})")
         elif r["exit"] == 0:
             det.append(f"{ck}: missed")
         else:
